@@ -348,7 +348,7 @@ Definition validate (E : denv) (s : seg) : D unit :=
 Definition step (E : denv) (s : seg) : D unit :=
   dod found <- find_node E s;
   if found then dod_ dispatch_seg E s; validate E s
-  else d_ret tt.
+  else handle_popped.                 (* fix: the reader's errors of an unplaced segment are handled at once *)
 
 (* `for seg in src`: X12Reader.__iter__ (x12file.py:405-425), one raw line per turn *)
 Fixpoint run_lines (E : denv) (lines : list str) : D unit :=
